@@ -286,6 +286,7 @@ def scenario(run, e4, sc):
         if not w0:
             return v, "server did not boot: %s" % srv.stderr()[-300:], info
         target = sc["workers"]
+        killed_by_harness = set()
         if kind == "upgraded":
             # the master under observation is one that was started by a binary upgrade (USR2) and promoted
             from checks.c14 import find_new_master
@@ -305,10 +306,21 @@ def scenario(run, e4, sc):
             if op == "kill":
                 ws = srv.worker_pids()
                 for p in ws[:step[1]]:
+                    killed_by_harness.add(p)
                     try:
                         os.kill(p, signal.SIGKILL)
                     except OSError:
                         pass
+            elif op == "kill2fast":
+                # two workers die a few milliseconds apart: the second death is reaped while the master is busy replacing the first
+                ws = srv.worker_pids()
+                for p in ws[:2]:
+                    killed_by_harness.add(p)
+                    try:
+                        os.kill(p, signal.SIGKILL)
+                    except OSError:
+                        pass
+                    time.sleep(step[1])
             elif op == "ttin":
                 srv.signal(signal.SIGTTIN)
                 target += 1
@@ -335,6 +347,13 @@ def scenario(run, e4, sc):
         else:
             run.count("live_pool_checks")
             run.count("traces_validated_against_impl")
+        if all(st[0] in ("kill", "kill2fast", "sleep") for st in sc["steps"]) and kind != "upgraded":
+            # nothing asked the master to shrink the pool: a worker that nobody killed is not surplus and must still be there
+            gone = [p for p in w0 if p not in killed_by_harness and p not in w]
+            run.count("live_bystander_checks")
+            if gone:
+                v.append(("worker-that-was-not-surplus-stopped", "workers %s were neither killed by the harness nor surplus, yet they are gone "
+                          "after %s (initial %s, now %s)" % (gone, sc["steps"], w0, w)))
         z = zombies_of(e4, srv.master_pid)
         if z:
             time.sleep(1.5)
@@ -354,7 +373,7 @@ def scenario(run, e4, sc):
 
 
 def plan(run, tier, seed):
-    run.require("live_pool_checks", "live_boot_failure_exit_status_checks", "live_hook_boot_failure_checks",
+    run.require("live_bystander_checks", "live_pool_checks", "live_boot_failure_exit_status_checks", "live_hook_boot_failure_checks",
                 "live_late_boot_failure_checks", "live_reaped_before_recorded", "live_stale_entry_dropped")
     classes = ["sync", "gthread", "gevent", "eventlet"]
     hs = [
@@ -367,10 +386,14 @@ def plan(run, tier, seed):
         {"workers": 1, "steps": [["ttin"], ["ttin"], ["ttin"], ["ttou"], ["kill", 2], ["hup", 2]]},
         {"workers": 4, "steps": [["ttou"], ["ttou"], ["ttou"], ["ttou"], ["kill", 1]]},
     ]
+    fast = [{"workers": 4, "steps": [["kill2fast", 0.01], ["sleep", 1.0], ["kill2fast", 0.03]]},
+            {"workers": 5, "steps": [["kill2fast", 0.0], ["sleep", 0.6], ["kill2fast", 0.05], ["sleep", 0.6], ["kill2fast", 0.02]]}]
     out = []
     for i, h in enumerate(hs):
         if tier == "quick" and (i + seed) % 2:
             continue
+        out.append(dict(h, kind="history", **{"class": classes[(i + seed) % 4]}))
+    for i, h in enumerate(fast):
         out.append(dict(h, kind="history", **{"class": classes[(i + seed) % 4]}))
     out.append({"kind": "upgraded", "workers": 2, "steps": [["kill", 1], ["sleep", 0.5], ["ttin"], ["kill", 2]], "class": classes[(seed + 1) % 3]})
     out.append({"kind": "bootfail3", "workers": 1, "class": "sync"})
